@@ -82,3 +82,7 @@ def jobs(tier):
                    abstract_fields=ABS_S, force_types=FORCE + ['std::vector<std::vector<smt::constr *>>'], timeout=2400, solver='cadical',
                    bounded='%d variables, no value listeners registered' % NV))
     return out
+
+
+# what the evidence file says is NOT decided by this module, and what it assumes
+INFO = {'not_under_contract': ['sat_core::propagate main loop, analyze, record, next, simplify_db, check(lits)', 'the theory seam (theory::propagate / check called from the core)', 'sat_stack'], 'assumptions': ['value listeners do not touch the network']}
